@@ -325,14 +325,16 @@ int main(int argc, char** argv) {
         bool longLines = !coll && r.chance(14);
         if (longLines) {
             long U = r.range(9, 14); long wx0 = r.range(2, (int) U - 5), wy0 = r.range(2, (int) U - 5), wx1 = wx0 + r.range(2, 3), wy1 = wy0 + r.range(2, 3);
-            auto walk = [&](int nv) { std::vector<IPt> ps; IPt p{r.range(0, (int) U), r.range(0, (int) U)}; ps.push_back(p); long step = r.chance(50) ? 2 : (r.chance(50) ? 4 : 1);
+            auto walk = [&](int nv, bool startInside) { std::vector<IPt> ps; IPt p{r.range(0, (int) U), r.range(0, (int) U)};
+                if (startInside) p = IPt{r.range((int) wx0, (int) wx1), r.range((int) wy0, (int) wy1)};     // the line begins inside the rectangle (no entering segment)
+                ps.push_back(p); long step = r.chance(50) ? 2 : (r.chance(50) ? 4 : 1);
                 while ((int) ps.size() < nv) { IPt q; int tries = 0;
                     do { q = IPt{p.x + r.range((int) -step, (int) step), p.y + r.range((int) -step, (int) step)}; q.x = std::max(0L, std::min(U, q.x)); q.y = std::max(0L, std::min(U, q.y)); } while (q == p && ++tries < 8);
                     if (q == p) q = IPt{p.x == U ? p.x - 1 : p.x + 1, p.y};
                     ps.push_back(q); p = q; }
                 return ps; };
             A = GGeom{}; A.container = 1; int nl = r.chance(75) ? 2 : 3;
-            for (int q = 0; q < nl; q++) { GElem e; e.kind = 1; std::vector<IPt> w = walk(r.range(21, 24));
+            for (int q = 0; q < nl; q++) { GElem e; e.kind = 1; std::vector<IPt> w = walk(r.range(21, 24), r.chance(q == 0 ? 25 : 70));
                 // mostly: the line ends with two or three vertices far from the rectangle (a corner region of the universe), on varying sides
                 if (r.chance(65)) { long cx = r.chance(50) ? 0 : U, cy = r.chance(50) ? 0 : U; int tail = r.range(2, 3);
                     for (int i = 0; i < tail; i++) { IPt qd{cx == 0 ? (long) r.range(0, 1) : U - r.range(0, 1), cy == 0 ? (long) r.range(0, 1) : U - r.range(0, 1)}; if (!(qd == w.back())) w.push_back(qd); } }
